@@ -198,6 +198,8 @@ pub fn strat_space(prop: &str) -> u64 {
         "C04" => common * 40 * 2,
         "C07" => common * 20 * 9,
         "C08" => (common / 2) * 20 * 5,
+        // four names per stratum run
+        "C03" => (crate::scen_srv::confine_space() + 3) / 4,
         _ => 0,
     }
 }
